@@ -479,6 +479,13 @@ def fb_rule(repo, res, tier, rule="SK-FB"):
             inside = [n for n, *_ in B.walk(last) if n in wb_uses]
             outside = [n for n in wb_uses if n not in inside and not (n.kind == "simple" and n.words[0] == "_get_comp_words_by_ref")]
             rec("F5:wordbreaks-only-trim-reply", not outside and bool(inside), "COMP_WORDBREAKS is read only inside the reply block (and handed to _get_comp_words_by_ref)" if not outside else f"COMP_WORDBREAKS also used at lines {[n.line for n in outside]}", last.line)
+            # the suffix compared is what follows the LAST occurrence of each word-break character: ${prefix##*$char}
+            sfx = [a for n2, *_ in B.walk(last) if n2.kind == "simple" for a in B.assignments(n2) if re.search(r"\$\{prefix#", a[3])]
+            okl = bool(sfx) and all(re.fullmatch(r'"?\$\{prefix##\*\$\{?char\}?\}"?', a[3]) for a in sfx)
+            rec("F5:suffix-after-last-wordbreak", okl, f"{[a[0] + '=' + a[3] for a in sfx]}" + ("" if okl else ": the suffix must be taken after the LAST occurrence of the word-break character (##*), as bash itself strips the typed prefix; a single # cuts at the first occurrence and leaves part of the typed word in every reply"), last.line)
+            shortest = [c for n2, *_ in B.walk(last) if n2.kind == "cond" for c in [n2.text] if "#candidate" in c or "#shortest_suffix" in c]
+            oks = any(re.fullmatch(r"\$\{#candidate\} -lt \$\{#shortest_suffix\}", c.strip()) for c in shortest)
+            rec("F5:shortest-suffix-wins", oks, f"{shortest}" + ("" if oks else ": the shortest suffix over all word-break characters must be kept"), last.line)
             sp = [a[3] for s in inner if s.kind == "simple" for a in B.assignments(s) if a[0] == "COMPREPLY"]
             rec("F5:reply-strips-prefix-only", bool(sp) and "#$superfluous_prefix" in sp[0], f"COMPREPLY={sp[0] if sp else None}", last.line)
         rec(f"F4:first-level-with-matches-wins[{tag}]", ok, why, lp.line)
@@ -814,3 +821,60 @@ def matchfn_rule(repo, res, tier, rule="SK-MATCHFN"):
             rec(f"{tag}:prefix-only-quoted-or-folded", okp, "before the loop the prefix is only case-folded / passed through printf %q" if okp else "the prefix is altered before filtering", ifs[0].line)
     for k, (ok, why, line) in sorted(agg.items()):
         res.check(ok, rule, k, why, f"bash skeleton line {line}")
+
+
+# ------------------------------------------------------------------ SK-FRESH (C17 V7 / C01 W3): per-iteration scratch arrays
+def fresh_rule(repo, res, tier, rule="SK-FRESH"):
+    """An array that is filled with `+=` inside a block of the word walk / within-word scan and then iterated to decide whether a
+    word is accepted must hold only what THIS iteration put there: in the same statement list, before the filling loop, it is
+    assigned a value (`name=(...)`, `local -a name=(...)`, `readarray -t name`).  A bare `local -a name` / `declare -a name` does
+    not reset an existing local in bash, so candidates of a command consulted earlier on the line would still be compared."""
+    names, sets = flag_sets(repo, tier)
+    agg = {}
+
+    def rec(key, ok, why, line):
+        k = f"{rule}:{key}"
+        if k not in agg or (agg[k][0] and not ok):
+            agg[k] = (ok, why, line)
+
+    n = 0
+    for flags in sets:
+        text, tree, funcs, _ = skeleton(repo, flags)
+        for fname in (MAIN, SUB):
+            for fdef in funcs.get(fname, []):
+                # match phase only: statements inside a `while` loop of the function (the walk / the scan)
+                for w, loops, conds, f in B.walk(fdef):
+                    if w.kind != "while" or loops:
+                        continue
+                    for lst, l2, c2, f2 in B.walk(w.body, (w,)):
+                        if lst.kind != "list":
+                            continue
+                        for i, st in enumerate(lst.items):
+                            if st.kind != "for":
+                                continue
+                            apps = set()
+                            for x, *_ in B.walk(st.body):
+                                if x.kind == "simple":
+                                    for a in B.assignments(x):
+                                        if a[2] == "+=":
+                                            apps.add(a[0])
+                            for arr in sorted(apps):
+                                # is the array read later in this list by a loop that compares its elements?
+                                later = lst.items[i + 1 :]
+                                used = any(y.kind == "for" and any(("${%s[@]}" % arr) in wd for wd in y.words) for y in later)
+                                if not used:
+                                    continue
+                                n += 1
+                                reset = None
+                                for prev in lst.items[:i]:
+                                    if prev.kind == "simple":
+                                        if prev.words[:2] == ["readarray", "-t"] and prev.words[-1] == arr:
+                                            reset = "readarray"
+                                        for a in B.assignments(prev):
+                                            if a[0] == arr:
+                                                reset = "value" if a[2] == "=" else ("decl-only" if a[2] == "decl" else reset)
+                                rec(f"{fname}:{arr}", reset in ("value", "readarray"), f"`{arr}` is " + ("assigned a value before the loop that fills it: it holds only this iteration's entries" if reset in ("value", "readarray") else
+                                    ("only declared (`local -a`/`declare -a` without a value keeps the previous content of an existing local)" if reset == "decl-only" else "never reset") + f" before the loop that appends to it: entries from an earlier command / iteration are still compared with the word"), st.line)
+    for k, (ok, why, line) in sorted(agg.items()):
+        res.check(ok, rule, k, why, f"bash skeleton line {line}")
+    res.floor(rule, len(agg), 2)
